@@ -187,7 +187,11 @@ fn ord_word(w: &str) -> String {
 }
 
 fn ordinal_base(n: u64, hyphens: bool) -> String {
-    let c = cardinal(n, &Style::default());
+    ordinal_base_styled(n, hyphens, &Style::default())
+}
+
+fn ordinal_base_styled(n: u64, hyphens: bool, st: &Style) -> String {
+    let c = cardinal(n, st);
     let c = if hyphens { c } else { c.replace('-', " ") };
     // split off the last word (after the last space or hyphen)
     let idx = c.rfind(|ch| ch == ' ' || ch == '-').map(|i| i + 1).unwrap_or(0);
@@ -206,6 +210,16 @@ pub fn ordinals(n: u64) -> Vec<SpelledOrd> {
         let b = ordinal_base(n, hy);
         v.push(SpelledOrd { text: b.clone(), marker: "ème", inflection: "sg", variant: name });
         v.push(SpelledOrd { text: format!("{}s", b), marker: "èmes", inflection: "pl", variant: name });
+    }
+    // regional tens (septante / huitante / octante / nonante), as for the cardinals
+    let primary = ordinal_base(n, true);
+    for (r, name) in [(Region::Belgium, "septante-nonante"), (Region::Swiss, "huitante"), (Region::Octante, "octante")] {
+        let b = ordinal_base_styled(n, true, &Style { region: r });
+        if b != primary && !v.iter().any(|o| o.text == b) {
+            v.push(SpelledOrd { text: b.clone(), marker: "ème", inflection: "sg", variant: name });
+            v.push(SpelledOrd { text: format!("{}s", b), marker: "èmes", inflection: "pl", variant: name });
+            v.push(SpelledOrd { text: b.replace('-', " "), marker: "ème", inflection: "sg", variant: name });
+        }
     }
     v
 }
